@@ -10,7 +10,7 @@ CLAIMS = {
          "Correspondence: Display/to_string/AsRefStr/IntoStaticStr(by value, by ref, into_str)/get_serializations printed by the real derives and parsed back by the real EnumString, 17 style strings.",
          "DESIGN.md §6 C02", ""),
  'C03': ("Lean 4 proof: every string derive's arm is the canonical name (max_by_key characterised); correspondence with compiled derives",
-         "lean/StrumProofs/C03.lean: canonical spec, longest_spec/longest_unique (max_by_key keeps a longest, last among ties), all_derives_agree for Display, ToString, AsRefStr, AsStaticStr, IntoStaticStr x3, variant_names_at. "
+         "lean/StrumProofs/C03.lean: source_canonical (the canonical name read off the header's and the variant's OWN attribute lists as written), canonical spec, longest_spec/longest_unique (max_by_key keeps a longest, last among ties), all_derives_agree for Display, ToString, AsRefStr, AsStaticStr, IntoStaticStr x3, variant_names_at. "
          "Correspondence: all seven outputs + VARIANTS[i] from the real derives (deprecated ones on a twin enum), serialize lists in every order of lengths incl. byte-vs-char length disagreement, 4 prefixes, 17 styles.",
          "DESIGN.md §6 C03", ""),
  'C11': ("Lean 4 proof parametric in the inner field's impl (forwarding) + C01 corollary (capture); correspondence + format!(spec, inner) oracle",
@@ -18,7 +18,7 @@ CLAIMS = {
          "tuple and named forms, C01's inputs for capture and round trip, format-spec grid compared with the model and with format!(spec, inner) in Rust.",
          "DESIGN.md §6 C11", "Partial: rendering of non-string inner values is Rust's; compared against format! inside the Rust driver, not against Lean."),
  'C12': ("Lean 4 proof: byte-level characterisation of eq_ignore_ascii_case (equal, or the two cases of one ASCII letter); correspondence with compiled derives",
-         "lean/StrumProofs/C12.lean: ci_flag_spec, eqIgnoreAsciiCase_iff_foldEq, non_ascii_exact, ci_accepts_iff / cs_accepts_iff, lookalikes_rejected (whole table by kernel evaluation), nonascii_vs_ascii_rejected. "
+         "lean/StrumProofs/C12.lean: source_ci (a written variant's own flag, else the header's - no other variant's items enter), ci_flag_spec, eqIgnoreAsciiCase_iff_foldEq, non_ascii_exact, ci_accepts_iff / cs_accepts_iff, lookalikes_rejected (whole table by kernel evaluation), nonascii_vs_ascii_rejected. "
          "Correspondence: enum flag x variant flag x ASCII/non-ASCII spellings, every 2^k case flip (k <= 8 quick / 12 thorough), look-alikes at each letter, Unicode lower/upper/casefold images, against ci and cs variants alike.",
          "DESIGN.md §6 C12", ""),
  'C16': ("Lean 4 proof: phf parser = plain parser for all inputs, key table duplicate-free under non-overlap; correspondence on twin enums with the phf feature",
@@ -61,11 +61,11 @@ CLAIMS.update({
 })
 CLAIMS.update({
  'C14': ("Lean 4 proof: four getters = declarative functions, incl. soundness of the macro's arm-counting wildcard rule (exhaustiveness); correspondence with compiled derives",
-         "lean/StrumProofs/C14.lean: evalArms_spec (the generated match always compiles and returns the variant's own arm), message_spec, detailed_spec, doc_spec, ser_spec. "
+         "lean/StrumProofs/C14.lean: source_message / source_detailed / source_documentation / source_serializations (each getter read off the variant's OWN attributes and doc lines as written), evalArms_spec (the generated match always compiles and returns the variant's own arm), message_spec, detailed_spec, doc_spec, ser_spec. "
          "Correspondence: five enum modes (mixed, every variant has a message = no wildcard, none, all documented, all detailed) x kinds x generics x 0..4 doc lines with varied leading whitespace and special characters x naming x 17 styles x disabled.",
          "DESIGN.md §6 C14", "EnumMessage on an empty enum does not compile (`match self {}` on a reference) and has no value to call the methods on; excluded."),
  'C15': ("Lean 4 proof: getter = first declared (key, type) entry of the variant, None otherwise; iff under per-variant key uniqueness; correspondence with compiled derives",
-         "lean/StrumProofs/Collect.lean (attribute collection as written -> abstract variant: collected_spec, props_groups_merge: ALL props(..) groups merge in source order whatever sits between them); lean/StrumProofs/C15.lean: get_spec, get_type, get_iff, int_unchanged. Correspondence: 0..6 properties per variant over 1..3 props(..) groups, keys shared across variants and types, keyword keys, "
+         "lean/StrumProofs/C15.lean: source_get (first (key, T) entry among ALL props groups written on that variant); lean/StrumProofs/Collect.lean (attribute collection as written -> abstract variant: collected_spec, props_groups_merge: ALL props(..) groups merge in source order whatever sits between them); lean/StrumProofs/C15.lean: get_spec, get_type, get_iff, int_unchanged. Correspondence: 0..6 properties per variant over 1..3 props(..) groups, keys shared across variants and types, keyword keys, "
          "i64::MIN / MAX / negative integers, disabled variants; every key declared anywhere in the enum plus case / prefix / whitespace / r# variations and random strings through all three getters.",
          "DESIGN.md §6 C15", "The merge of several props(..) groups happens in syn-level attribute collection (variant_props.rs:155-157), exercised by every corpus item with more than one group; the model starts from the merged list."),
 })
